@@ -20,7 +20,7 @@ RULE = ('valid confirmed requests of every supported service (ReadProperty, Writ
         'families (garbage of every layer incl. address-field shapes and network-layer messages interleaved with valid requests, '
         'histories of valid traffic with time passing, routed requests through alternating routers with a planted I-Am-Router, '
         'small max-APDU codes with good/bad segment acks and client aborts, segmented requests in/out of order with duplicates, '
-        'abandoned segmented requests followed by the time-outs and the same invoke ID again, same-moment batches [requests that defer follow-up work, a garbage item] in every order handed over as deferred calls and run by bacpypes.core.run_once, routed requests from originators with MAC lengths 1..8, 16, 18, 255 (valid and mutated, behind remote-station and global-broadcast DADRs), a service that never responds with duplicates / client aborts / time passing, a device with communication disabled): every injected frame is predicted from its raw octets by DeviceRx.device_rx '
+        'abandoned segmented requests followed by the time-outs and the same invoke ID again, same-moment batches [requests that defer follow-up work, a garbage item] in every order handed over as deferred calls and run by bacpypes.core.run_once, routed requests from originators with MAC lengths 1..8, 16, 18, 255 (valid and mutated, behind remote-station and global-broadcast DADRs), a service that never responds with duplicates / client aborts / time passing, a device with communication disabled, every value of the fixed-header fields that leaves the header intact [all 256 invoke IDs incl. 0 and 255 with IDs reused at once from two stations, any second octet = reserved bit / max-segments / max-APDU code, reserved and segmented-response-accepted bits, NPCI priority / expecting-reply bits] on valid and mutated requests): every injected frame is predicted from its raw octets by DeviceRx.device_rx '
         '(frames sent with destination, route, PDU type, invoke ID, reason / error class+code, segmentation; server '
         'transactions, their armed timers, orphan timers after each frame and at quiescence) and compared with the stack.')
 TRUSTED = ['model coq/theories/Asap.v + AsapCodec.v = service lookup (registry translated from apdu.py), parameter decoding by the C03 codec model, dispatch and error mapping of ApplicationServiceAccessPoint.indication and Application.indication; '
